@@ -65,13 +65,24 @@ structure Scan where
 /-- the `invalid_character:` label -/
 def invalidAt (inp : Bytes) (k : Nat) : NumErr := if rd inp k != 0 then .invChar else .eof
 
+/-- `minus = in[0] == '-'` -/
+def signOff (inp : Bytes) : Nat := if rd inp 0 == 45 then 1 else 0
+
+/-- offset behind the integer part that starts at `m`: a single `0`, or a run of digits -/
+def intEnd (inp : Bytes) (m : Nat) : Nat :=
+  if rd inp m == 48 then m + 1 else m + 1 + countDigits (inp.drop (m + 1))
+
+/-- offset behind the optional fraction that starts at `o1` -/
+def fracEnd (inp : Bytes) (o1 : Nat) : Nat :=
+  if rd inp o1 == 46 then o1 + 1 + countDigits (inp.drop (o1 + 1)) else o1
+
 /-- the scanning part of `lyjson_number` -/
 def scan (inp : Bytes) : Except NumErr Scan :=
-  let m := if rd inp 0 == 45 then 1 else 0
+  let m := signOff inp
   if !isDigit (rd inp m) then .error (invalidAt inp m) else
-  let o1 := if rd inp m == 48 then m + 1 else m + 1 + countDigits (inp.drop (m + 1))
+  let o1 := intEnd inp m
   if rd inp o1 == 46 && !isDigit (rd inp (o1 + 1)) then .error (invalidAt inp (o1 + 1)) else
-  let o2 := if rd inp o1 == 46 then o1 + 1 + countDigits (inp.drop (o1 + 1)) else o1
+  let o2 := fracEnd inp o1
   if rd inp o2 == 101 || rd inp o2 == 69 then
     let o3 := if rd inp (o2 + 1) == 43 || rd inp (o2 + 1) == 45 then o2 + 2 else o2 + 1
     if !isDigit (rd inp o3) then .error (invalidAt inp o3) else
@@ -146,17 +157,28 @@ def findDot (num : Bytes) : Option Nat :=
   | some i => some i
   | none => none
 
+/-- `dp_position = dec_point ? dec_point - num + e_val : num_len + e_val` -/
+def dpOf (decIdx : Option Nat) (numLen0 : Nat) (eVal : Int) : Int :=
+  (match decIdx with | some p => (p : Int) | none => (numLen0 : Int)) + eVal
+
+/-- the trailing zeros cut from the numeric part: counted backwards from `exponent`, down to `num + dp_position - 1` -/
+def trimOf (inp : Bytes) (numOff expOff : Nat) (dp : Int) : Nat :=
+  if dp > 0 then countBack inp (numOff + (dp - 1).toNat) expOff else countBack inp numOff expOff
+
+/-- `dot`: -1 the old point falls away, 0 it is moved, 1 a byte for a new one is needed -/
+def dotOf (decIdx : Option Nat) (numLen : Nat) (dp : Int) : Int :=
+  if decIdx.isSome && ((numLen : Int) - 1 == dp) then -1 else if decIdx.isSome then 0 else 1
+
 def prep (inp : Bytes) (expOff : Nat) (eVal : Int) : Prep :=
-  let m : Nat := if rd inp 0 == 45 then 1 else 0
+  let m := signOff inp
   let leadingZero := rd inp m == 48
   let numOff := if leadingZero then m + 1 else m
-  let numLen0 := (expOff - numOff) % 65536
+  let numLen0 := (expOff - numOff) % 65536                        -- uint16_t num_len = exponent - num
   let decIdx := findDot (slice inp numOff numLen0)
-  let dp : Int := (match decIdx with | some p => (p : Int) | none => (numLen0 : Int)) + eVal
-  let trim := if dp > 0 then countBack inp (numOff + (dp - 1).toNat) expOff else countBack inp numOff expOff
-  let numLen := (numLen0 + 65536 - trim % 65536) % 65536
-  let dot : Int := if decIdx.isSome && ((numLen : Int) - 1 == dp) then -1 else if decIdx.isSome then 0 else 1
-  { m, leadingZero, numOff, numLen, decIdx, dp, dot }
+  let dp := dpOf decIdx numLen0 eVal
+  let trim := trimOf inp numOff expOff dp
+  let numLen := (numLen0 + 65536 - trim % 65536) % 65536          -- num_len -= …  (uint16_t)
+  { m, leadingZero, numOff, numLen, decIdx, dp, dot := dotOf decIdx numLen dp }
 
 def minusW (m : Nat) : Writes := if m == 1 then [(0, 45)] else []
 
@@ -208,14 +230,16 @@ def expDigits (inp : Bytes) (expOff : Nat) : Bytes :=
   let dOff := if s == 43 || s == 45 then expOff + 2 else expOff + 1
   slice inp dOff (countDigits (inp.drop dOff))
 
+/-- `e_val = strtoll(exponent + 1, NULL, 10)` when it is in range -/
+def expVal (inp : Bytes) (expOff : Nat) : Int :=
+  if rd inp (expOff + 1) == 45 then -(digitsVal (expDigits inp expOff) : Int) else digitsVal (expDigits inp expOff)
+
 /-- `lyjson_exp_number(ctx, in, in + expOff, …)` -/
 def expNumber (inp : Bytes) (expOff : Nat) : Except NumErr ExpOut :=
   if expOff > 65535 then .error .tooLong else
-  let mag := digitsVal (expDigits inp expOff)
   -- `errno || e_val > UINT16_MAX || e_val < -UINT16_MAX` (an overflowing `strtoll` is > 65535 as well)
-  if mag > 65535 then .error .expRange else
-  let eVal : Int := if rd inp (expOff + 1) == 45 then -(mag : Int) else mag
-  let p := prep inp expOff eVal
+  if digitsVal (expDigits inp expOff) > 65535 then .error .expRange else
+  let p := prep inp expOff (expVal inp expOff)
   let c := compose inp p
   -- `lyjson_get_buffer_for_number`: `(uint64_t)buf_len + 1 > LY_NUMBER_MAXLEN`
   if c.1 < 0 || c.1 + 1 > Generated.LY_NUMBER_MAXLEN then .error .maxLen else
